@@ -1,5 +1,5 @@
 (* C03 -- Ordered collection search returns the first match of the flattened search path.
-   Statements only; every proof is `exact <lemma>` from Proofs/ChainProofs{A,B,C,D,E}.v.  The model is
+   Statements only; every proof is `exact <lemma>` from Proofs/ChainProofs{A,B,C,D,E,G}.v.  The model is
    coq/Model/Chain.v (hand-written, faithful to registry/collections/_base.py, sql_registry.findDataset,
    direct_query_driver/_driver.py and the legacy find-first); it is tied to /repo by the correspondence run
    of harness/props/c03.py (same histories on the real Butler and on this model, every step compared).
@@ -8,7 +8,9 @@
                        associate, redefine / prepend / extend / remove-from chain, valid or refused)
      wf s              acyclic (rows s) /\ every row links a CHAINED parent to an existing child /\ positions
                        unique per parent (the primary key) /\ one dataset per (collection, type, data ID) /\
-                       summaries are supersets of the contents /\ collection names unique
+                       summaries are supersets of the contents (dataset type and, per governor dimension of the
+                       type, the value) /\ collection names unique /\ summary rows belong to existing collections
+                       and a CALIBRATION collection lists calibration dataset types only
      reachs rs a b     a = b or b is reachable from a through chain rows
 *)
 From Coq Require Import ZArith NArith List Bool.
@@ -92,19 +94,52 @@ Theorem refused_changes_nothing : forall s o s' e, step s o = (s', Refused e) ->
 Proof. exact step_refused_same. Qed.
 Print Assumptions refused_changes_nothing.
 
-(* ---- find-first: the three formulations return the first match of the flattened path ---- *)
-(* SqlRegistry.findDataset / Butler.find_dataset / Butler.get: minimum rank over the fetched rows, in
-   whatever order the database returns them, after pruning by summaries *)
-Theorem find_rank_is_first_match : forall s ty d ns path, wf s -> flatten s ns = Ok path ->
+(* setCollectionChain(flatten=True): the chain becomes the flattened (chain-free, duplicate-free) child list *)
+Theorem edit_flat_order : forall s p cs s', edit_flat s p cs = (s', Done) ->
+  exists path, flatten s cs = Ok path /\ children s' p = path /\
+    (forall q, q <> p -> children s' q = children s q) /\ colls s' = colls s /\ cont s' = cont s.
+Proof. exact edit_flat_order_p. Qed.
+Print Assumptions edit_flat_order.
+
+(* ---- find-first: the formulations return the first match of the flattened path ----
+     cons              the governor constraint of a query: governor dimension -> value (data ID and WHERE clause)
+     consistent s cons ty d   data ID d (of dataset type ty) satisfies it on the governor dimensions of ty
+     is_calty s ty     ty is a calibration dataset type;  is_calib s c   c is a CALIBRATION collection *)
+(* SqlRegistry.findDataset / Butler.find_dataset without timespan: minimum rank over the fetched rows, in whatever
+   order the database returns them, after pruning by summaries; CALIBRATION collections are not searched *)
+Theorem find_rank_skips_calibration : forall s ty d ns path, wf s -> flatten s ns = Ok path ->
+  find_rank s ty d ns = Ok (first_match (cont s) ty d (skip_calib s path)).
+Proof. exact find_rank_skips. Qed.
+Print Assumptions find_rank_skips_calibration.
+
+(* ... which for a dataset type that is not a calibration type is the first match of the whole path (no such
+   dataset can be a member of a CALIBRATION collection: invariant calib_ok of wf) *)
+Theorem find_rank_is_first_match : forall s ty d ns path, wf s -> is_calty s ty = false -> flatten s ns = Ok path ->
   find_rank s ty d ns = Ok (first_match (cont s) ty d path).
 Proof. exact find_rank_first. Qed.
 Print Assumptions find_rank_is_first_match.
 
+(* Butler.get: every dataset type, CALIBRATION collections searched (unbounded timespan) *)
+Theorem find_get_is_first_match : forall s ty d ns path, wf s -> flatten s ns = Ok path ->
+  find_get s ty d ns = Ok (first_match (cont s) ty d path).
+Proof. exact find_get_first. Qed.
+Print Assumptions find_get_is_first_match.
+
 (* legacy Registry.queryDatasets(findFirst=True): ROW_NUMBER window, shortcut for <= 1 collection *)
-Theorem find_legacy_is_first_match : forall s gc ty d ns path, wf s -> flatten s ns = Ok path ->
-  find_legacy s gc ty d ns = Ok (opt_list (first_match (cont s) ty d path)).
+Theorem find_legacy_is_first_match : forall s cons ty d ns path, wf s -> is_calty s ty = false ->
+  consistent s cons ty d = true -> flatten s ns = Ok path ->
+  find_legacy s cons ty d ns = Ok (opt_list (first_match (cont s) ty d path)).
 Proof. exact find_legacy_first. Qed.
 Print Assumptions find_legacy_is_first_match.
+
+(* ... in general: NotImplementedError exactly when a CALIBRATION collection named in the search path survives the
+   pruning; no rows for a data ID that contradicts the constraint *)
+Theorem find_legacy_any_type : forall s cons ty d ns path, wf s -> flatten s ns = Ok path ->
+  find_legacy s cons ty d ns =
+    if existsb (fun c => is_calib s c && memN c ns) (prune s cons ty path) then Err ENotImpl
+    else Ok (if consistent s cons ty d then opt_list (first_match (cont s) ty d path) else []).
+Proof. exact find_legacy_general. Qed.
+Print Assumptions find_legacy_any_type.
 
 (* the two flattening algorithms of the code base -- resolve_wildcard (expand, drop chains, keep first
    occurrences) and DirectQueryDriver._filter_collections (`done` set that also stops re-expansion) --
@@ -113,33 +148,82 @@ Theorem two_flattenings_agree : forall s ns, wf s -> flattenB s ns = flatten s n
 Proof. exact flattenB_flatten_p. Qed.
 Print Assumptions two_flattenings_agree.
 
-(* new query system, Butler.query_datasets(find_first=True): the window over the path of _filter_collections *)
-Theorem find_window_is_first_match : forall s gc ty d ns path, wf s -> flatten s ns = Ok path ->
-  find_window s gc ty d ns = Ok (opt_list (first_match (cont s) ty d path)).
+(* new query system, Butler.query_datasets(find_first=True): the window over the path of _filter_collections;
+   every dataset type, CALIBRATION collections included *)
+Theorem find_window_is_first_match : forall s cons ty d ns path, wf s -> consistent s cons ty d = true ->
+  flatten s ns = Ok path ->
+  find_window s cons ty d ns = Ok (opt_list (first_match (cont s) ty d path)).
 Proof. exact find_window_first_full. Qed.
 Print Assumptions find_window_is_first_match.
 
-Theorem three_agree : forall s gc ty d ns path, wf s -> flatten s ns = Ok path ->
+Theorem find_window_any_constraint : forall s cons ty d ns path, wf s -> flatten s ns = Ok path ->
+  find_window s cons ty d ns = Ok (if consistent s cons ty d then opt_list (first_match (cont s) ty d path) else []).
+Proof. exact find_window_general_full. Qed.
+Print Assumptions find_window_any_constraint.
+
+Theorem three_agree : forall s cons ty d ns path, wf s -> is_calty s ty = false -> consistent s cons ty d = true ->
+  flatten s ns = Ok path ->
   find_rank s ty d ns = Ok (first_match (cont s) ty d path) /\
-  find_window s gc ty d ns = Ok (opt_list (first_match (cont s) ty d path)) /\
-  find_legacy s gc ty d ns = Ok (opt_list (first_match (cont s) ty d path)).
+  find_get s ty d ns = Ok (first_match (cont s) ty d path) /\
+  find_window s cons ty d ns = Ok (opt_list (first_match (cont s) ty d path)) /\
+  find_legacy s cons ty d ns = Ok (opt_list (first_match (cont s) ty d path)).
 Proof. exact three_agree_p. Qed.
 Print Assumptions three_agree.
 
-(* ... and therefore on the state after ANY history, for any search path over existing collections *)
-Theorem three_agree_every_history : forall ops gc ty d ns, forallb (exists_c (run init ops)) ns = true ->
+(* ... and therefore on the state after ANY history, for any search path over existing collections (CALIBRATION
+   collections included), any constraint the data ID satisfies *)
+Theorem three_agree_every_history : forall ops cons ty d ns, is_calty (run init ops) ty = false ->
+  consistent (run init ops) cons ty d = true -> forallb (exists_c (run init ops)) ns = true ->
   exists path, flatten (run init ops) ns = Ok path /\
     find_rank (run init ops) ty d ns = Ok (first_match (cont (run init ops)) ty d path) /\
-    find_window (run init ops) gc ty d ns = Ok (opt_list (first_match (cont (run init ops)) ty d path)) /\
-    find_legacy (run init ops) gc ty d ns = Ok (opt_list (first_match (cont (run init ops)) ty d path)).
+    find_get (run init ops) ty d ns = Ok (first_match (cont (run init ops)) ty d path) /\
+    find_window (run init ops) cons ty d ns = Ok (opt_list (first_match (cont (run init ops)) ty d path)) /\
+    find_legacy (run init ops) cons ty d ns = Ok (opt_list (first_match (cont (run init ops)) ty d path)).
 Proof. exact three_agree_hist_p. Qed.
 Print Assumptions three_agree_every_history.
 
-(* pruning the path by collection summaries never changes the answer *)
-Theorem summary_pruning_irrelevant : forall s gc ty d path, summ_ok s ->
-  first_match (cont s) ty d (prune s gc ty d path) = first_match (cont s) ty d path.
+(* calibration dataset types after any history: findDataset without timespan answers for the path without its
+   CALIBRATION collections; Butler.get and the new query system for the whole path; the legacy query refuses a
+   CALIBRATION collection that is named in the path and survives the pruning, and otherwise (reached through a
+   chain) searches it too *)
+Theorem calibration_search_every_history : forall ops cons ty d ns, consistent (run init ops) cons ty d = true ->
+  forallb (exists_c (run init ops)) ns = true ->
+  exists path, flatten (run init ops) ns = Ok path /\
+    find_rank (run init ops) ty d ns = Ok (first_match (cont (run init ops)) ty d (skip_calib (run init ops) path)) /\
+    find_get (run init ops) ty d ns = Ok (first_match (cont (run init ops)) ty d path) /\
+    find_window (run init ops) cons ty d ns = Ok (opt_list (first_match (cont (run init ops)) ty d path)) /\
+    find_legacy (run init ops) cons ty d ns =
+      if existsb (fun c => is_calib (run init ops) c && memN c ns) (prune (run init ops) cons ty path) then Err ENotImpl
+      else Ok (opt_list (first_match (cont (run init ops)) ty d path)).
+Proof. exact calibration_search_p. Qed.
+Print Assumptions calibration_search_every_history.
+
+(* pruning the path by collection summaries -- dataset type listed, and for every CONSTRAINED governor dimension of
+   the DATASET TYPE that the collection's summary knows, the constrained value listed -- never changes the answer
+   for a data ID that satisfies the constraint *)
+Theorem summary_pruning_irrelevant : forall s cons ty d path, summ_ok s -> consistent s cons ty d = true ->
+  first_match (cont s) ty d (prune s cons ty path) = first_match (cont s) ty d path.
 Proof. exact prune_first. Qed.
 Print Assumptions summary_pruning_irrelevant.
+
+(* the governor test looks only at the governor dimensions of the dataset type: two constraints that agree on them
+   prune the same collections, so a dataset type without a governor is never pruned by a constraint on it (the
+   governor summary of a collection covers ALL dataset types in it) *)
+Theorem pruning_only_by_own_governors : forall s cons cons' ty path,
+  (forall g, In g (tgov s ty) -> lookupNN g cons = lookupNN g cons') -> prune s cons ty path = prune s cons' ty path.
+Proof. exact prune_own_governors. Qed.
+Print Assumptions pruning_only_by_own_governors.
+
+Theorem foreign_constraint_irrelevant : forall s g v cons ty d ns, ~ In g (tgov s ty) ->
+  find_window s ((g, v) :: cons) ty d ns = find_window s cons ty d ns /\
+  find_legacy s ((g, v) :: cons) ty d ns = find_legacy s cons ty d ns.
+Proof. exact foreign_constraint_p. Qed.
+Print Assumptions foreign_constraint_irrelevant.
+
+(* the single-dataset lookups derive their constraint from the data ID: always satisfied *)
+Theorem data_id_constraint_consistent : forall s ty d, consistent s (cons_of s ty d) ty d = true.
+Proof. exact consistent_cons_of. Qed.
+Print Assumptions data_id_constraint_consistent.
 
 (* ---- a CHAINED collection is equivalent to its child list, anywhere in a search path (equal flattened
         paths, hence equal answers of every formulation) ---- *)
@@ -165,7 +249,8 @@ Print Assumptions repeats_irrelevant.
 (* ---- non-vacuity: a history with chains nested to depth 3, prepend into negative positions, a cycle
         attempt through three levels, shadowing decided below the head of the path ---- *)
 Definition demo_ops : list op :=
-  [ OReg 0 CRun; OReg 1 CRun; OReg 2 CTagged; OReg 4 CChained; OReg 5 CChained; OReg 6 CChained;
+  [ OType 0 [0%N] false;                       (* dataset type 0 over {instrument, detector} *)
+    OReg 0 CRun; OReg 1 CRun; OReg 2 CTagged; OReg 4 CChained; OReg 5 CChained; OReg 6 CChained;
     OSet 0 0 1 10; OSet 1 0 1 11; OSet 2 0 1 11;
     OEdit KRedefine 4 [0; 1; 0]%N;              (* 4 -> (0, 1) *)
     OEdit KRedefine 5 [4; 2]%N;                 (* 5 -> (4, 2) *)
@@ -178,7 +263,7 @@ Example demo_depth3 : flatten demo [6%N] = Ok [2; 1; 0]%N /\ children demo 4 = [
   map rpos (prows (rows demo) 4) = [0; -2; -1]%Z.
 Proof. vm_compute. repeat split. Qed.
 Example demo_cycle_refused :
-  snd (step (run init (firstn 13 demo_ops)) (OEdit KRedefine 4 [6]%N)) = Refused ECycle.
+  snd (step (run init (firstn 14 demo_ops)) (OEdit KRedefine 4 [6]%N)) = Refused ECycle.
 Proof. vm_compute. reflexivity. Qed.
 Example demo_self_refused : snd (edit demo KExtend 5 [0; 5]%N) = Refused ECycle.
 Proof. vm_compute. reflexivity. Qed.
@@ -187,8 +272,8 @@ Proof. vm_compute. reflexivity. Qed.
 Example demo_parent_not_chained : snd (edit demo KExtend 0 [1]%N) = Refused ECollType.
 Proof. vm_compute. reflexivity. Qed.
 Example demo_three_agree :
-  find_rank demo 0 1 [6; 0]%N = Ok (Some 11%N) /\ find_window demo true 0 1 [6; 0]%N = Ok [11%N] /\
-  find_legacy demo false 0 1 [6; 0]%N = Ok [11%N] /\ first_match (cont demo) 0 1 [2; 1; 0]%N = Some 11%N /\
+  find_rank demo 0 1 [6; 0]%N = Ok (Some 11%N) /\ find_window demo [(0, 0)]%N 0 1 [6; 0]%N = Ok [11%N] /\
+  find_legacy demo [] 0 1 [6; 0]%N = Ok [11%N] /\ first_match (cont demo) 0 1 [2; 1; 0]%N = Some 11%N /\
   find_rank demo 0 1 [0; 6]%N = Ok (Some 10%N).
 Proof. vm_compute. repeat split. Qed.
 Example demo_wf_hyp : exists path, flattenB demo [6; 0]%N = Ok path /\ NoDup path /\ flatten demo [6; 0]%N = Ok path.
@@ -196,6 +281,42 @@ Proof.
   exists [2; 1; 0]%N. split; [vm_compute; reflexivity|]. split; [|vm_compute; reflexivity].
   repeat constructor; simpl; intuition discriminate.
 Qed.
+
+(* governors, constraints and CALIBRATION collections: type 0 over {instrument}, type 2 over {skymap}, type 3 a
+   calibration type over {instrument}.  Run 1 holds a type-0 dataset of instrument 1 and a type-2 dataset of skymap
+   value 2, so its governor summary knows skymap = {2}; a search for type 0 constrained to skymap 1 (a governor type 0
+   does not have) must still find the dataset in run 1 (seed C03b pruned run 1 here).  The calibration collection 10
+   holds dataset 21 (certified), run 0 dataset 20 of the same data ID. *)
+Definition demo2_ops : list op :=
+  [ OType 0 [0%N] false; OType 2 [1%N] false; OType 3 [0%N] true;
+    OReg 0 CRun; OReg 1 CRun; OReg 10 CCalib; OReg 4 CChained;
+    OSet 1 0 17 30; OSet 1 2 128 31; OSet 0 0 17 32;
+    OSet 0 3 1 20; OSet 1 3 1 21; OCert 10 3 1 21;
+    OEdit KRedefine 4 [10; 0]%N ].
+Definition demo2 : st := run init demo2_ops.
+Example demo2_foreign_governor :
+  prune demo2 [(0, 1); (1, 1)]%N 0 [1; 0]%N = [1; 0]%N /\
+  find_window demo2 [(0, 1); (1, 1)]%N 0 17 [1; 0]%N = Ok [30%N] /\
+  find_legacy demo2 [(1, 1)]%N 0 17 [1; 0]%N = Ok [30%N] /\
+  consistent demo2 [(0, 1); (1, 1)]%N 0 17 = true /\ tgov demo2 0 = [0%N] /\
+  (* a constraint on the type's own governor does prune, and selects *)
+  prune demo2 [(0, 2)]%N 0 [1; 0]%N = [] /\ find_window demo2 [(0, 2)]%N 0 17 [1; 0]%N = Ok [].
+Proof. vm_compute. repeat split. Qed.
+Example demo2_calibration :
+  flatten demo2 [4%N] = Ok [10; 0]%N /\ is_calib demo2 10 = true /\ is_calty demo2 3 = true /\
+  find_rank demo2 3 1 [4%N] = Ok (Some 20%N) /\           (* findDataset, no timespan: collection 10 skipped *)
+  find_get demo2 3 1 [4%N] = Ok (Some 21%N) /\            (* Butler.get: unbounded timespan, collection 10 first *)
+  find_window demo2 [] 3 1 [4%N] = Ok [21%N] /\
+  find_legacy demo2 [] 3 1 [4%N] = Ok [21%N] /\           (* reached through a chain: searched *)
+  find_legacy demo2 [] 3 1 [10; 0]%N = Err ENotImpl /\    (* named explicitly: refused *)
+  find_legacy demo2 [] 0 17 [10; 0]%N = Ok [32%N] /\      (* ... unless pruned: it holds no type-0 dataset *)
+  snd (step demo2 (OCert 10 0 17 30)) = Refused ETypeErr /\ snd (step demo2 (OCert 0 3 1 20)) = Refused ECollType /\
+  snd (step demo2 (OSet 10 3 1 20)) = Refused ECollType.
+Proof. vm_compute. repeat split. Qed.
+Example demo2_flatten_edit :
+  (* setCollectionChain(4, [4], flatten=True): accepted, the chain becomes its own leaves *)
+  let '(s', o) := step demo2 (OEditFlat 4 [4; 1]%N) in o = Done /\ children s' 4 = [10; 0; 1]%N.
+Proof. vm_compute. split; reflexivity. Qed.
 
 (* ---- a limit of the position arithmetic that the model exposes (not reproducible on SQLite): positions
         are never re-packed, so 32770 accepted prepends that merely swap the two children of a chain push
